@@ -44,7 +44,7 @@ impl FeatureIter {
             #[doc=#doc_inner]
             #[inline]
             #vis fn #ident_iter_fn() -> #ident_iter_struct {
-                use ::core::iter::Iterator;
+                use ::core::iter::Iterator as _;
                 #ident_iter_struct {
                     // Safety: the number is known to be a valid enum
                     inner: (#start..=#end).map(|x| unsafe { ::core::mem::transmute(x) }),
